@@ -16,7 +16,8 @@ import uuid
 from decimal import Decimal
 from fractions import Fraction
 
-STR_ALPHABET = ['"', "\\", "\n", "\t", "\x1f", "\x7f", "é", "中", "\U0001f40d", "a", "f", "0", " ", "\x00", " ", "\r"]
+# escape-relevant characters incl. a NON-printable astral one (U+E0001, needs \\UXXXXXXXX) and hex digits (the reader's unicode escapes are greedy)
+STR_ALPHABET = ['"', "\\", "\n", "\t", "\x1f", "\x7f", "\u00e9", "\u4e2d", "\U0001f40d", "\U000e0001", "a", "f", "0", " ", "\x00", "\u00a0", "\r"]
 
 
 def plan(tier, seed):
@@ -24,7 +25,7 @@ def plan(tier, seed):
     hs = [0, 1] if q else [0, 1, 2, 3]
     shards = []
     for p in range(4 if q else 8):
-        shards.append({"kind": "strings", "maxlen": 3 if q else 4, "part": p, "parts": 4 if q else 8, "alpha": 12 if q else 13, "hashseed": hs[p % len(hs)]})
+        shards.append({"kind": "strings", "maxlen": 3 if q else 4, "part": p, "parts": 4 if q else 8, "alpha": 13 if q else 14, "hashseed": hs[p % len(hs)]})
     shards.append({"kind": "scalars", "hashseed": 0, "nfloat": 6000 if q else 200000})
     for i in range(4 if q else 12):
         shards.append({"kind": "nested", "n": 500 if q else 9000, "hashseed": hs[i % len(hs)]})
